@@ -82,3 +82,11 @@ Theorem C10_tile_energy : forall g perc x y z, in_grid (tile_dims (dims g) perc)
   E (tile g perc) (x, y, z) = (let '(nx, ny, nz) := dims g in E g (x mod nx, y mod ny, z mod nz)).
 Proof. exact tile_E. Qed.
 Print Assumptions C10_tile_energy.
+
+(* cheapest over all peaks: the selected cost is attained by a peak and no peak with a path is cheaper; nothing is selected iff no peak has a path *)
+Theorem C10_perc_best_minimal : forall costs c, best_cost costs = Some c -> In (Some c) costs /\ forall c', In (Some c') costs -> c <= c'.
+Proof. exact best_minimal. Qed.
+Print Assumptions C10_perc_best_minimal.
+Theorem C10_perc_best_none : forall costs, best_cost costs = None <-> forall x, In x costs -> x = None.
+Proof. exact best_none. Qed.
+Print Assumptions C10_perc_best_none.
